@@ -14,7 +14,7 @@ pub static DEF: PropDef = PropDef {
     assumptions: &[
         "width/padding is asserted on values that are ASCII (entry names in the tree are ASCII; multi-byte text appears as literal text only)",
         "modes always have an owner permission bit so that %m has no leading zero whose printing the statement leaves open",
-        "%f / %h are asserted at depth 0 only for starting points whose spelling ends in a plain component, and %h only where the part before the last '/' is already in normal form (see DESIGN.md section 6 for the findings this leaves as KNOWN-FINDING)",
+        "%f / %h are asserted at depth 0 only for starting points whose spelling ends in a plain component, and %h only where the part before the last '/' is already in normal form",
         "%l of a link that the follow mode resolves may be the target or empty (the statement allows both)",
         "escapes are generated with exactly three octal digits; a literal never starts with a digit",
     ],
@@ -354,13 +354,6 @@ pub fn check(ctx: &mut Ctx, c: &Case) -> Outcome {
     }
     let got: Vec<u8> = if to_file { std::fs::read(&out_file).unwrap_or_default() } else { o.stdout.clone() };
     let _ = std::fs::remove_file(&out_file);
-    // known finding (known_findings.json): below a starting point that is not spelled in normal
-    // form %H prints the normalised spelling. Excluded here by construction (counted); the
-    // identities sub-run probes it on every spelling and reports it by its signature.
-    let root_not_normal = root.ends_with('/') || root.ends_with("/.") || root.contains("//") || root.contains("/./");
-    if root_not_normal && c.fmt.iter().any(|x| matches!(x, Comp::Dir { letter: 'H', .. })) && entries.iter().any(|e| e.depth >= 1) {
-        return Pass::discard("known finding C16:%H:below:root-not-in-normal-form (excluded by construction)");
-    }
     // walk the output entry by entry; alternatives (e.g. %l of a resolved link) are handled by
     // tracking the set of offsets at which the next entry may start
     let mut positions: Vec<usize> = vec![0];
